@@ -156,16 +156,27 @@ def _miri_result(name, rc, out, calls_re, extra_cov, key, t0, sample):
 
 
 def miri_racer_part(drv, tier, seed, extra_cov):
+    """racer selftest under Miri: 8 schedule seeds (thorough) in 4 parallel interpreter processes, each seed
+    runs 3 threads over every 3rd built-in case (an interpreted call costs ~0.2 s)"""
     t0 = time.time()
-    seeds = 16 if tier == "thorough" else 2
-    try:
-        rc, out = _miri(drv, "racer", ["selftest", "--threads", "4", "--rounds", "1", "--seed", str(seed), "--spin-us", "0"],
-                        "-Zmiri-many-seeds=0..%d" % seeds, 4 * 3600)
-    except subprocess.TimeoutExpired:
-        extra_cov["sanitizer_miri_racer"] = "not run: watchdog"
-        return _empty(notes=["Miri racer part hit the watchdog (not a verdict)"])
+    procs = 4 if tier == "thorough" else 1
+    per = 2
+
+    def one(i):
+        try:
+            return _miri(drv, "racer", ["selftest", "--threads", "3", "--rounds", "1", "--seed", str(seed + i), "--spin-us", "0",
+                                        "--every", "3"],
+                         "-Zmiri-many-seeds=%d..%d" % (i * per, (i + 1) * per), 3 * 3600)
+        except subprocess.TimeoutExpired:
+            return (1, "watchdog")
+    outs = [one(0)]  # builds once
+    if procs > 1:
+        with concurrent.futures.ThreadPoolExecutor(max_workers=procs) as ex:
+            outs += list(ex.map(one, range(1, procs)))
+    rc = max(r for r, _ in outs)
+    out = "\n".join(o for _, o in outs)
     return _miri_result("racer", rc, out, r"RACER .*? calls=(\d+)", extra_cov, "sanitizer_miri_racer", t0,
-                        "racer selftest --threads 4 under -Zmiri-many-seeds=0..%d (that many schedules)" % seeds)
+                        "racer selftest --threads 3 --every 3 under Miri, %d schedule seeds in %d processes" % (procs * per, procs))
 
 
 def miri_ops_part(drv, tier, seed, extra_cov):
